@@ -44,7 +44,7 @@ def gen(seed, idx, tier):
         eps_kinds=("none", "none", "const", "spatial"),
         gamma=rnd.choice([0.0, 0.1, 1.0]),
     )
-    if screening and scn["drive"]["field"]["kind"] in ("zero", "ramp", "pw", "sin"):
+    if screening and scn["drive"]["field"]["kind"] in ("zero", "ramp", "pw", "sin", "wave"):
         # a vanishing induced potential makes the relative convergence test a coin flip on noise
         scn["drive"]["field"] = {"kind": "const", "B": scn["drive"]["field"].get("B", 0.1) or 0.1}
     tp = scn["options"].get("terminal_psi", 0.0)
